@@ -13,7 +13,20 @@ import collections.abc
 
 import z3
 from crosshair.libimpl.builtinslib import SymbolicBytes, SymbolicInt
+from crosshair.simplestructs import concatenate_sequences
 from crosshair.tracers import NoTracing
+
+
+class _Concat:
+    def __add__(self, other):
+        if isinstance(other, collections.abc.Sequence):
+            return concatenate_sequences(self, other)
+        return NotImplemented
+
+    def __radd__(self, other):
+        if isinstance(other, collections.abc.Sequence):
+            return concatenate_sequences(other, self)
+        return NotImplemented
 
 
 _FORCE_VIEW = False   # validation only: take the lazy-view path on concrete bounds as well
@@ -50,7 +63,7 @@ def _clamp(v, n, default):
     return v
 
 
-class FixedSeq(collections.abc.Sequence):
+class FixedSeq(_Concat, collections.abc.Sequence):
     def __init__(self, items):
         self.items = list(items)
 
@@ -81,7 +94,7 @@ class FixedSeq(collections.abc.Sequence):
         return _select(self.items, key)
 
 
-class FixedView(collections.abc.Sequence):
+class FixedView(_Concat, collections.abc.Sequence):
     """seq[start:stop] with 0 <= start <= stop <= len(seq), bounds possibly symbolic"""
 
     def __init__(self, seq, start, stop):
